@@ -356,22 +356,37 @@ def unit_at(f, line):
     return None
 
 
+def unit_in_formatted(f, line):
+    """the unit whose function holds the given line of the formatted text"""
+    a = f.ftext.split("\n")
+    names = {u.case["id"]: u for u in f.units}
+    for i in range(min(line - 1, len(a) - 1), -1, -1):
+        m = re.search(r"\b(f_\w+)", a[i])
+        if m and m.group(1) in names and ("func " in a[i] or "@test" in a[i]):
+            return names[m.group(1)]
+    return None
+
+
 def suspects(f):
-    """the units of a packed file that cannot be read off it and have to be observed alone ([] = all units can be read off
-    it; None = it cannot be told which: the file is halved).  Only decides how the observations are obtained; the
-    verdict is the contract's."""
+    """(units of a packed file that have to be observed alone, can the other units be read off this file).
+    ([], True): every unit can be read off it; (None, False): something is wrong with the file as a whole and it cannot be told
+    which unit causes it - the file is halved.  Only decides how the observations are obtained; the verdict is the contract's."""
     if len(f.units) == 1:
-        return []
+        return [], True
     rc, so, se = f.orig_raw
     first = [u for u in f.units if f.oobs[u.uid]["status"] != "ok"]
     if first and f.oobs[first[0].uid]["status"] == "compile-error":
         m = re.search(r"line (\d+)", se + so)
         u = unit_at(f, int(m.group(1))) if m else None
-        return [u] if u else None
+        return ([u] if u else None), False
     if not f.fmt_ok:
         m = re.search(r"line (\d+)", f.fmt_raw_msg)
         u = unit_at(f, int(m.group(1))) if m else None
-        return [u] if u else None
+        return ([u] if u else None), False
+    if all(f.fobs[u.uid]["status"] == "compile-error" for u in f.units):
+        m = re.search(r"line (\d+)", f.fmt_raw[2] + f.fmt_raw[1])
+        u = unit_in_formatted(f, int(m.group(1))) if m else None
+        return ([u] if u else None), False
     out = []
     for u in f.units:
         r = unit_record(f, u)
@@ -384,18 +399,14 @@ def suspects(f):
                 bad = True
         if bad:
             out.append(u)
-    if not f.idem and not out:
-        a, b = f.ftext.split("\n"), f.ftext2.split("\n")
-        k = next((i for i in range(min(len(a), len(b))) if a[i] != b[i]), min(len(a), len(b)))
-        names = {u.case["id"]: u for u in f.units}
-        hit = None
-        for i in range(min(k, len(a) - 1), -1, -1):
-            m = re.search(r"\b(f_\w+)", a[i])
-            if m and m.group(1) in names and ("func " in a[i] or "@test" in a[i]):
-                hit = names[m.group(1)]
-                break
-        out = [hit] if hit else None
-    return out
+    if f.idem:
+        return out, True
+    a, b = f.ftext.split("\n"), f.ftext2.split("\n")
+    k = next((i for i in range(min(len(a), len(b))) if a[i] != b[i]), min(len(a), len(b)))
+    hit = unit_in_formatted(f, k + 1)
+    if hit is None:
+        return None, False
+    return out + ([hit] if hit not in out else []), False
 
 
 # ---------------------------------------------------------------- Go cross-check of the specification
@@ -623,26 +634,25 @@ def run():
             nproc += process_files(files, sd, ego, env, "round%d" % rounds)
             nxt = {}
             for f in files:
-                sus = suspects(f)
+                sus, reuse = suspects(f)
                 if sus is None:
                     h = (len(f.units) + 1) // 2
                     nxt.setdefault((f.shape, "p", f.name + "a"), []).extend(f.units[:h])
                     nxt.setdefault((f.shape, "p", f.name + "b"), []).extend(f.units[h:])
                     continue
-                if not sus:
-                    for u in f.units:
-                        rec = unit_record(f, u)
-                        if len(f.units) == 1:
-                            rec["_src"], rec["_fmt"], rec["_shape"] = f.text, f.ftext, f.shape
-                        recs.append(rec)
-                    continue
-                # the suspects are observed alone, the others packed again without them
+                # the suspects are observed alone; the others are read off this file when it ran as a whole, else packed again
                 ids = {u.uid for u in sus}
                 for u in sus:
                     alone += 1
                     nxt.setdefault((f.shape, "a", u.uid), []).append(u)
                 rest = [u for u in f.units if u.uid not in ids]
-                if rest:
+                if reuse:
+                    for u in rest:
+                        rec = unit_record(f, u)
+                        if len(f.units) == 1:
+                            rec["_src"], rec["_fmt"], rec["_shape"] = f.text, f.ftext, f.shape
+                        recs.append(rec)
+                elif rest:
                     nxt.setdefault((f.shape, "p", f.name), []).extend(rest)
             # single suspects -> files of one unit; the rest of each file stays together
             pending = []
